@@ -977,6 +977,37 @@ def f_metrics(tier="quick", seed=0):
                       "mapping": {"loop-order": {"Z": lo}, "spacetime": {"Z": {"space": [], "time": lo}}},
                       "extents": {"K": 3, "M": 2, "N": 2}, "sizes": {}, "arch": secs["architecture"], "bindings": secs["bindings"],
                       "format": secs["format"], "tags": {"family": "metrics", "template": "mini-floatdepth", "leader_first": True}})
+    # a tensor that goes through a hardware merger (extra 'metrics' swizzle), unpartitioned / occupancy-split / flattened
+    def merger_spec(label, d, ex, part, lo, a_iter, init, final, ext):
+        def fmt(t, ranks):
+            yy = "  %s:\n    default:\n      rank-order: [%s]\n" % (t, ", ".join(ranks))
+            for r in ranks:
+                yy += "      %s:\n        format: C\n        cbits: 32\n        pbits: 64\n" % r
+            return yy
+        y = "format:\n" + fmt("A", a_iter)
+        y += ("architecture:\n  Acc:\n  - name: System\n    attributes:\n      clock_frequency: 101\n    local:\n"
+              "    - name: Mem\n      class: DRAM\n      attributes:\n        bandwidth: 211\n    subtree:\n"
+              "    - name: PE[0..2]\n      local:\n      - name: Mrg\n        class: Merger\n        attributes:\n"
+              "          inputs: 16\n          comparator_radix: 16\n          outputs: 1\n          order: fifo\n          reduce: False\n"
+              "      - name: Mul\n        class: compute\n        attributes:\n          type: mul\n")
+        out = out_name(ex[0])
+        y += ("bindings:\n  %s:\n  - config: Acc\n    prefix: tmp/%s\n  - component: Mrg\n    bindings:\n    - tensor: A\n"
+              "      init-ranks: [%s]\n      final-ranks: [%s]\n  - component: Mul\n    bindings:\n    - op: mul\n"
+              % (out, out, ", ".join(init), ", ".join(final)))
+        secs = S.split_sections(y)
+        m = {"loop-order": {out: lo}, "spacetime": {out: {"space": [], "time": lo}}}
+        if part:
+            m["partitioning"] = {out: part}
+        return {"name": "metrics/merger/" + label, "decl": d, "exprs": ex, "mapping": m, "extents": ext, "sizes": {},
+                "arch": secs["architecture"], "bindings": secs["bindings"], "format": secs["format"],
+                "tags": {"family": "metrics", "template": "merger", "leader_first": True, "legal": True}}
+    specs.append(merger_spec("plain", decl, exprs, None, ["M", "K", "N"], ["M", "K"], ["K", "M"], ["M", "K"], {"K": 3, "M": 2, "N": 2}))
+    specs.append(merger_spec("occ", decl, exprs, {"K": ["uniform_occupancy(A.2)"]}, ["K1", "M", "N", "K0"], ["K1", "M", "K0"],
+                             ["K1", "K0", "M"], ["K1", "M", "K0"], {"K": 3, "M": 2, "N": 2}))
+    specs.append(merger_spec("shape", decl, exprs, {"K": ["uniform_shape(2)"]}, ["M", "K1", "N", "K0"], ["M", "K1", "K0"],
+                             ["K1", "K0", "M"], ["M", "K1", "K0"], {"K": 3, "M": 2, "N": 2}))
+    specs.append(merger_spec("flat", {"A": ["N", "K", "M"], "Z": ["N"]}, ["Z[n] = A[n, k, m]"], {"(M, K)": ["flatten()"]}, ["N", "MK"],
+                             ["N", "MK"], ["MK", "N"], ["N", "MK"], {"K": 2, "M": 2, "N": 2}))
     # partitioned variant (explicit shapes with interleaved levels)
     for lo in (["M1", "N", "K", "M0"], ["N", "M1", "M0", "K"], ["K", "M1", "N", "M0"]):
         for isect in (None, "two-finger", "leader-follower"):
